@@ -395,7 +395,134 @@ func init() {
 		}
 		emit("trav", "graph/traversal.go `walk`", "graph", "walk", "InDependencyOrder", "CollectInDependencyOrder")
 		emit("fanout", "types/project.go `WithServicesTransform`", "types", "WithServicesTransform", "WithImagesResolved")
+		// the option fields the workers READ (t.after in skip, t.inverse in ready / adjacentNodes, t.maxConcurrency in walk):
+		// every access in package graph, and the position of the option loop relative to the call of walk
+		optFields := c19StructFields("graph/traversal.go", "Options")
+		isOpt := map[string]bool{}
+		for _, f := range optFields {
+			isOpt[f] = true
+		}
+		optAcc := c19Accesses("graph", func(e ast.Expr) (string, bool) {
+			sel, ok := e.(*ast.SelectorExpr)
+			if !ok || !isOpt[sel.Sel.Name] {
+				return "", false
+			}
+			return src(sel.X) + "." + sel.Sel.Name, true
+		})
+		fmt.Fprintf(&b, "/-- graph/traversal.go: the fields of `Options` -/\ndef travOptionFields : List String := [%s]\n\n", joinLean(optFields))
+		b.WriteString("/-- every access of a field of `Options` in package graph: (expression, function, read/write, mutexes held) -/\n")
+		b.WriteString("def travOptionFieldAccesses : List (String × String × String × List String) := [\n")
+		for i, a := range optAcc {
+			if i > 0 {
+				b.WriteString(",\n")
+			}
+			fmt.Fprintf(&b, "  (%s, %s, %s, [%s])", leanStr(a.name), leanStr(a.fn), leanStr(a.kind), joinLean(a.held))
+		}
+		b.WriteString("]\n\n")
+		fmt.Fprintf(&b, "/-- in `CollectInDependencyOrder` the loop that applies the options is a top-level statement before the one that calls `walk` -/\ndef travOptionsAppliedBeforeWalk : Bool := %v\n\n", c19OptionsBeforeWalk())
+		// the dependency graph the workers read: every store to a field of `vertex` / `graph` in package graph
+		gFields := append(c19StructFields("graph/graph.go", "vertex"), c19StructFields("graph/graph.go", "graph")...)
+		isG := map[string]bool{}
+		for _, f := range gFields {
+			isG[f] = true
+		}
+		gAcc := c19Accesses("graph", func(e ast.Expr) (string, bool) {
+			sel, ok := e.(*ast.SelectorExpr)
+			if !ok || !isG[sel.Sel.Name] {
+				return "", false
+			}
+			return strings.Join(strings.Fields(src(sel.X)), " ") + "." + sel.Sel.Name, true
+		})
+		fmt.Fprintf(&b, "/-- graph/graph.go: the fields of `vertex` and `graph` -/\ndef graphStructFields : List String := [%s]\n\n", joinLean(gFields))
+		b.WriteString("/-- every STORE to a field of `vertex` / `graph` (or to an element of such a map) in package graph: (expression, function) -/\n")
+		b.WriteString("def graphStructFieldWrites : List (String × String) := [\n")
+		first := true
+		for _, a := range gAcc {
+			if a.kind != "write" {
+				continue
+			}
+			if !first {
+				b.WriteString(",\n")
+			}
+			first = false
+			fmt.Fprintf(&b, "  (%s, %s)", leanStr(a.name), leanStr(a.fn))
+		}
+		b.WriteString("]\n\n")
+		fmt.Fprintf(&b, "/-- in `CollectInDependencyOrder` the statement that calls `newGraph` precedes the one that calls `walk` -/\ndef graphBuiltBeforeWalk : Bool := %v\n\n", c19CallBefore("graph/services.go", "CollectInDependencyOrder", "newGraph", "walk"))
 		b.WriteString("end CV.Gen\n")
 		return "ConcWrites.lean", b.String()
 	})
+}
+
+// c19StructFields: the field names of struct type `name` declared in file rel (embedded fields by their type name).
+func c19StructFields(rel, name string) []string {
+	var out []string
+	f := parse(rel)
+	ast.Inspect(f, func(n ast.Node) bool {
+		ts, ok := n.(*ast.TypeSpec)
+		if !ok || ts.Name.Name != name {
+			return true
+		}
+		if st, ok := ts.Type.(*ast.StructType); ok {
+			for _, fl := range st.Fields.List {
+				if len(fl.Names) == 0 {
+					out = append(out, c19RecvName(fl.Type))
+				}
+				for _, id := range fl.Names {
+					out = append(out, id.Name)
+				}
+			}
+		}
+		return false
+	})
+	return out
+}
+
+// c19OptionsBeforeWalk: in CollectInDependencyOrder a top-level `for … range options { option(t.Options) }` precedes the
+// top-level statement that calls walk, and no statement from the call of walk on mentions `options` / `option`.
+func c19OptionsBeforeWalk() bool {
+	fd := findFunc(parse("graph/services.go"), "CollectInDependencyOrder")
+	if fd == nil || fd.Body == nil {
+		return false
+	}
+	loopAt, walkAt, late := -1, -1, false
+	for i, s := range fd.Body.List {
+		if rs, ok := s.(*ast.RangeStmt); ok && src(rs.X) == "options" && loopAt < 0 {
+			loopAt = i
+		}
+		ast.Inspect(s, func(n ast.Node) bool {
+			if c, ok := n.(*ast.CallExpr); ok {
+				if id, ok := c.Fun.(*ast.Ident); ok && id.Name == "walk" && walkAt < 0 {
+					walkAt = i
+				}
+			}
+			if id, ok := n.(*ast.Ident); ok && walkAt >= 0 && i >= walkAt && (id.Name == "options" || id.Name == "option") {
+				late = true
+			}
+			return true
+		})
+	}
+	return loopAt >= 0 && walkAt > loopAt && !late
+}
+
+// c19CallBefore: in function fn of file rel, the first top-level statement calling `a` precedes the first one calling `b`.
+func c19CallBefore(rel, fn, a, b string) bool {
+	fd := findFunc(parse(rel), fn)
+	if fd == nil || fd.Body == nil {
+		return false
+	}
+	at := map[string]int{a: -1, b: -1}
+	for i, s := range fd.Body.List {
+		ast.Inspect(s, func(n ast.Node) bool {
+			if c, ok := n.(*ast.CallExpr); ok {
+				if id, ok := c.Fun.(*ast.Ident); ok {
+					if v, known := at[id.Name]; known && v < 0 {
+						at[id.Name] = i
+					}
+				}
+			}
+			return true
+		})
+	}
+	return at[a] >= 0 && at[b] > at[a]
 }
